@@ -81,7 +81,7 @@ fn inflate_calls(st: &mut InflateState, data: &[u8], calls: &[(u32, u32, u8)]) -
 }
 
 fn icalls() -> BoxedStrategy<Vec<(u32, u32, u8)>> {
-    proptest::collection::vec((prop_oneof![0u32..=3, 1u32..=60, Just(u32::MAX)], prop_oneof![0u32..=3, 1u32..=300, Just(1u32 << 16)], proptest::sample::select(vec![0u8, 0, 0, 2, 4, 3])), 0..10).boxed()
+    proptest::collection::vec((prop_oneof![1 => 0u32..=3, 1 => 1u32..=60, 2 => Just(u32::MAX)], prop_oneof![1 => 0u32..=3, 1 => 1u32..=300, 2 => Just(1u32 << 16)], proptest::sample::select(vec![0u8, 0, 0, 2, 4, 3])), 0..10).boxed()
 }
 
 impl Prop for P {
@@ -103,9 +103,9 @@ impl Prop for P {
     fn strategy(_tier: Tier) -> BoxedStrategy<Case> {
         let comp = (config(), recipe(20_000, 3), schedule(6), 0u8..=6, proptest::bool::weighted(0.2), prop_oneof![3 => Just(None), 1 => (0u8..=10).prop_map(Some)], recipe(20_000, 3), schedule(4))
             .prop_map(|(cfg, data_h, sched_h, steps_h, finish_h, set_level, data_w, sched_w)| Case::Comp { cfg, data_h, sched_h, steps_h, finish_h, set_level, data_w, sched_w });
-        let inf = (any_input(), icalls(), 0u8..4, prop_oneof![2 => valid_src(false).prop_map(|src| AnyInput { src, muts: vec![] }), 1 => any_input()], icalls(), 0u8..3, 0u8..3).prop_map(|(h, h_calls, policy, w, w_calls, fmt_h, fmt_w)| Case::Inflate { h, h_calls, policy, w, w_calls, fmt_h, fmt_w });
+        let inf = (prop_oneof![3 => any_input(), 2 => big_output_input()], icalls(), 0u8..4, prop_oneof![3 => valid_src(false).prop_map(|src| AnyInput { src, muts: vec![] }), 2 => any_input(), 2 => prestart_input()], icalls(), 0u8..3, 0u8..3).prop_map(|(h, h_calls, policy, w, w_calls, fmt_h, fmt_w)| Case::Inflate { h, h_calls, policy, w, w_calls, fmt_h, fmt_w });
         let ring = prop_oneof![2 => Just(None), 1 => (8u8..=16, any::<u32>(), any::<u64>()).prop_map(Some)];
-        let core = (any_input(), dec_sched(), 0u8..6, any::<bool>(), prop_oneof![2 => valid_src(false).prop_map(|src| AnyInput { src, muts: vec![] }), 1 => any_input()], dec_sched(), ring).prop_map(|(h, h_sched, h_calls, h_ring, w, w_sched, w_ring)| Case::Core { h, h_sched, h_calls, h_ring, w, w_sched, w_ring });
+        let core = (prop_oneof![3 => any_input(), 1 => big_output_input()], dec_sched(), 0u8..6, any::<bool>(), prop_oneof![2 => valid_src(false).prop_map(|src| AnyInput { src, muts: vec![] }), 1 => any_input()], dec_sched(), ring).prop_map(|(h, h_sched, h_calls, h_ring, w, w_sched, w_ring)| Case::Core { h, h_sched, h_calls, h_ring, w, w_sched, w_ring });
         let cstep = proptest::collection::vec((prop_oneof![0u32..=3, 1u32..=3000], prop_oneof![1u32..=5, 1u32..=3000], proptest::sample::select(vec![0u8, 0, 0, 1, 2, 3])), 0..6);
         let cd = (recipe(10_000, 3), cstep.clone(), recipe(10_000, 3), cstep, -1i8..=10, any::<bool>(), 0u8..=4).prop_map(|(data_h, steps_h, data_w, steps_w, level, zlib, strategy)| Case::CDeflate { data_h, steps_h, data_w, steps_w, level, zlib, strategy });
         prop_oneof![4 => comp, 3 => inf, 2 => core, 1 => cd].boxed()
